@@ -114,4 +114,90 @@ theorem C05_unchanged_not_written (old : OldEnv) (k v : Str) (h : old.lookup k =
     setCmd? {} old (k, v) = none := by
   simp [setCmd?, h]
 
+/-- **Removed aliases do not disturb the environment (repaired D27).**  The complete command list of an alias-free
+new state — exports, unsets, and an `unset -f NAME` for every alias that went away — evaluated from `old` yields
+exactly `new`, even when an alias shares its name with a variable. -/
+theorem C05_roundtrip_alias_removal (old new : Env) (oldAliases : List (Str × Option Str))
+    (hold : ∀ p ∈ old, isIdent p.1 = true) (hnew : ∀ p ∈ new, isIdent p.1 = true)
+    (hdict : (new.map (·.1)).Nodup)
+    (halpha : ∀ p ∈ new, old.get p.1 ≠ some p.2 → InAlphabet p.2)
+    (hprot : ∀ k, isProtected k = true → old.has k = true → new.has k = true)
+    (hal : ∀ p ∈ oldAliases, isIdent p.1 = true) :
+    ∃ cmds e, emit {} (OldEnv.ofEnv old) new [] oldAliases = some cmds ∧
+      shEval old (join cmds) = some e ∧ SameEnv e new := by
+  have hgoodv := emitVars_good (OldEnv.ofEnv old) old new (tracks_ofEnv old) hold hnew
+    (fun p hp hl => halpha p hp (by intro hg; apply hl; rw [lookup_ofEnv, hg]; rfl))
+  have hcm : emitCmds {} (OldEnv.ofEnv old) new [] oldAliases =
+      emitVarsOn {} (OldEnv.ofEnv old) new ++ oldAliases.map (fun p => Cmd.aliasDel p.1) := by
+    simp [emitCmds, emitVars, finalEnv, emitAliases_nil]
+  have hgood : ∀ c ∈ emitCmds {} (OldEnv.ofEnv old) new [] oldAliases, c.Good := by
+    intro c hc
+    rw [hcm] at hc
+    rcases List.mem_append.mp hc with h | h
+    · exact hgoodv c h
+    · obtain ⟨p, hp, rfl⟩ := List.mem_map.mp h
+      exact hal p hp
+  refine ⟨(emitCmds {} (OldEnv.ofEnv old) new [] oldAliases).map Cmd.text,
+    applyAll (emitCmds {} (OldEnv.ofEnv old) new [] oldAliases) old, ?_, ?_, ?_⟩
+  · unfold emit; exact mapM_render_default _
+  · have := shEval_join _ hgood false old
+    simpa using this
+  · rw [hcm, applyAll_append, applyAll_aliasDels]
+    exact emitVars_apply (OldEnv.ofEnv old) old new (tracks_ofEnv old) hdict hprot
+
+/-- **D27, pinned tree (negation witness):** the pinned emission `unset ll` for a removed alias `ll` removes the
+*variable* `ll`; the repaired `unset -f ll` leaves the environment alone. -/
+theorem C05_alias_removal_pinned_witness :
+    let env : Env := [(Str.ofString "ll", Str.ofString "x")]
+    shEval env (Str.ofString "unset ll") = some [] ∧ shEval env (Str.ofString "unset -f ll") = some env ∧
+      emit {} (OldEnv.ofEnv env) env [] [(Str.ofString "ll", none)] = some [Str.ofString "unset -f ll"] := by
+  decide
+
+/-- **`unsetup eups` (repaired D23).**  When eups itself is unset up, `app.setup` drops `EUPS_PATH`, `EUPS_PKGROOT`
+and `EUPS_SHELL` from the environment `new` that `Eups.setup` left (`finalEnv`), and no variable is protected.  The
+commands evaluated from the caller's environment yield exactly that final environment: in particular each of the
+three variables the caller had is unset, whether `Eups.setup` kept, changed or had already removed it. -/
+theorem C05_roundtrip_unsetup_eups (old new : Env)
+    (hold : ∀ p ∈ old, isIdent p.1 = true) (hnew : ∀ p ∈ finalEnv unsetupEups new, isIdent p.1 = true)
+    (hdict : ((finalEnv unsetupEups new).map (·.1)).Nodup)
+    (halpha : ∀ p ∈ finalEnv unsetupEups new, old.get p.1 ≠ some p.2 → InAlphabet p.2) :
+    ∃ cmds e, emit unsetupEups (OldEnv.ofEnv old) new [] [] = some cmds ∧
+      shEval old (join cmds) = some e ∧ SameEnv e (finalEnv unsetupEups new) := by
+  have hgood := emitVarsOn_good unsetupEups (OldEnv.ofEnv old) old (finalEnv unsetupEups new) (tracks_ofEnv old)
+    hold hnew (fun p hp hl => halpha p hp (by intro hg; apply hl; rw [lookup_ofEnv, hg]; rfl))
+  have hcm : emitCmds unsetupEups (OldEnv.ofEnv old) new [] [] =
+      emitVarsOn unsetupEups (OldEnv.ofEnv old) (finalEnv unsetupEups new) := by
+    simp [emitCmds, emitVars, emitAliases]
+  refine ⟨(emitCmds unsetupEups (OldEnv.ofEnv old) new [] []).map Cmd.text,
+    applyAll (emitCmds unsetupEups (OldEnv.ofEnv old) new [] []) old, ?_, ?_, ?_⟩
+  · unfold emit; exact mapM_render_unsetupEups _
+  · have hg' : ∀ c ∈ emitCmds unsetupEups (OldEnv.ofEnv old) new [] [], c.Good := by rw [hcm]; exact hgood
+    have := shEval_join (emitCmds unsetupEups (OldEnv.ofEnv old) new [] []) hg' false old
+    simpa using this
+  · rw [hcm]
+    exact emitVarsOn_apply unsetupEups rfl (OldEnv.ofEnv old) old _ (tracks_ofEnv old) hdict (Or.inl rfl)
+
+/-- the final environment of `unsetup eups` never holds one of the three variables -/
+theorem C05_unsetup_eups_drops (new : Env) :
+    (finalEnv unsetupEups new).has sEUPS_PATH = false ∧ (finalEnv unsetupEups new).has sEUPS_PKGROOT = false ∧
+      (finalEnv unsetupEups new).has sEUPS_SHELL = false := by
+  have h1 : sEUPS_PATH ≠ sEUPS_PKGROOT := by decide
+  have h2 : sEUPS_PATH ≠ sEUPS_SHELL := by decide
+  have h3 : sEUPS_PKGROOT ≠ sEUPS_SHELL := by decide
+  simp [finalEnv, unsetupEups, Env.has, Env.get_unset_same, Env.get_unset_other _ _ _ h1, Env.get_unset_other _ _ _ h2,
+    Env.get_unset_other _ _ _ h3]
+
+/-- Non-vacuity and the behaviours on the scenario `setup eups; unsetup eups` with the three variables in the
+caller's environment: the repaired order unsets all three; with the block between the two loops (pinned, D23) a
+variable created during the unsetup is exported and stays; with the block below both loops nothing is unset. -/
+example :
+    let old : Env := [(sEUPS_PATH, Str.ofString "/s"), (sEUPS_SHELL, Str.ofString "sh"), (Str.ofString "K", Str.ofString "k k")]
+    emit unsetupEups (OldEnv.ofEnv old) old [] [] =
+        some [Str.ofString "unset EUPS_PATH", Str.ofString "unset EUPS_SHELL"] ∧
+      shEval old (Str.ofString "unset EUPS_PATH;\nunset EUPS_SHELL") = some [(Str.ofString "K", Str.ofString "k k")] ∧
+      finalEnv unsetupEups old = [(Str.ofString "K", Str.ofString "k k")] ∧
+      -- the block below both loops: both loops see `old` unchanged and print nothing
+      (emitVarsOn unsetupEups (OldEnv.ofEnv old) old).map Cmd.text = [] := by
+  decide
+
 end EupsModel.C05
